@@ -65,7 +65,7 @@ class RegexInLoopRule(MultiLanguageLintRule):
         Returns:
             PerformanceConfig instance
         """
-        return load_linter_config(context, "performance", PerformanceConfig)
+        return load_linter_config(context, "performance", PerformanceConfig).for_rule("regex-in-loop")
 
     def _check_python(self, context: BaseLintContext, config: PerformanceConfig) -> list[Violation]:
         """Check Python code for regex compilation in loops.
